@@ -1306,6 +1306,18 @@ Proof.
     destruct (tick_interval <? m - now s) eqn:E2; [lia|]. apply Z.ltb_ge in E2. lia.
 Qed.
 
+(* RemoveInterest on an entry that is in no node changes nothing *)
+Lemma stale_remove_id : forall s id n, p_inv s -> stale_remove s id n = s.
+Proof.
+  intros s id n P. unfold stale_remove. destruct (mem_N id (tokmap s)) eqn:M; [reflexivity|].
+  unfold remove_interest. cbn [p_name p_id]. destruct (get_node (nodes s) n) as [nd|] eqn:G; [|reflexivity].
+  destruct (existsb (fun x => N.eqb (p_id x) id) (n_pit nd)) eqn:Ex; [|reflexivity]. exfalso.
+  apply existsb_exists in Ex. destruct Ex as [x [X1 X2]]. apply N.eqb_eq in X2.
+  assert (In id (tokmap s)).
+  { apply (pi_tok s P). rewrite <- X2. apply in_map. apply ents_In. exists nd. split; [eapply get_node_In; exact G|exact X1]. }
+  apply mem_N_In in H. congruence.
+Qed.
+
 (* ---- every operation, every history ---- *)
 (* deadlines: an Interest raises the deadline of its key to arrival + lifetime *)
 Definition bd_step (s : st) (bd : key -> Z) (o : op) : key -> Z :=
@@ -1329,7 +1341,7 @@ Qed.
 Theorem step_ginv : forall s o (bd : key -> Z), g_inv s bd -> g_inv (fst (step s o)) (bd_step s bd o).
 Proof.
   intros s o bd G. pose proof G as [P ND OK].
-  destruct o as [d|c|n w f|n cbp mbf|face n cbp mbf nonce life sent|n w f tok| | |u]; simpl.
+  destruct o as [d|c|n w f|n cbp mbf|face n cbp mbf nonce life sent|n w f tok| | |u|sid sn]; simpl.
   - (* time passes *)
     split.
     + apply (pinv_same s _ P); try reflexivity. destruct (pi_cs s P). split; assumption.
@@ -1356,6 +1368,7 @@ Proof.
   - unfold mgmt_cap. destruct (max_int <? u)%N; [exact G|].
     apply (g_inv_same s _ bd G); try reflexivity; [|exact ND]. apply (pinv_same s _ P); try reflexivity.
     destruct (pi_cs s P). split; assumption.
+  - rewrite (stale_remove_id s sid sn P). exact G.
 Qed.
 
 Lemma init_ginv : forall t0 c sv ad life (bd : key -> Z), g_inv (init t0 c sv ad life) bd.
